@@ -348,6 +348,13 @@ func (w *world) reachesSync(fn *ssa.Function) bool {
 // counter) and tiny loop-free helpers are executed in place.
 func (w *world) inline(fn *ssa.Function) bool {
 	s := w.scan[fn]
+	if s == nil && fn.Blocks != nil {
+		// an instantiation (wrapper or instance) of a generic package function: judged by its generic origin;
+		// the wrapper's body just calls the origin, the instance's body is the origin's with types filled in
+		if o := fn.Origin(); o != nil && o != fn && w.scan[o] != nil {
+			return w.inline(o)
+		}
+	}
 	if s == nil || fn.Blocks == nil {
 		return false
 	}
